@@ -720,3 +720,12 @@ def slice_resolution(ctx):
               expected='raise IndexError when the resolved index >= nmax')
     ok = any(e.exc[0] == 'call' and e.exc[1] == G('TypeError') for e in rsc)
     ctx.check(ok, R, 'scalar.type', ctx.where(fa), found=[T.show(e.exc) for e in rsc], expected='TypeError for other keys')
+
+
+_run_core = run
+
+
+def run(ctx):
+    _run_core(ctx)
+    from . import refs_misc
+    refs_misc.run_for(ctx, 'C03')
